@@ -221,7 +221,12 @@ func (e *Engine) expandGhostSort(vc *VC, srt string) string {
 		if !strings.HasPrefix(tok, "$") {
 			continue
 		}
-		t := e.lookupType(tok[1:])
+		var t types.Type
+		if strings.HasPrefix(tok, "$[]") {
+			t = e.parseGoType(tok[1:]) // a slice type: $[]byte
+		} else {
+			t = e.lookupType(tok[1:])
+		}
 		if t == nil {
 			return "" // type not loaded in this run
 		}
